@@ -44,21 +44,27 @@ Fixpoint ends_dyn (code : list op) : bool :=
 
 Definition loopish (code : list op) : bool := forallb loop_op code && ends_dyn code.
 
-(* position n in sendError + shutdown (the plain Close is its tail from 7) *)
+(* position n in sendError + shutdown (shutdown is its tail from 8, the plain
+   Close its tail from 10).  Indices: 3 OTest, 4 OEmit IErr, 5 OMark,
+   6 OWriteTag, 7 OUnlock, 9 OCloseInput, 13 OMark, 14 OWriteTag, 15 OUnlock,
+   16 ORet. *)
+Definition exit_len : nat := 17.
+
 Definition exit_at (n : nat) (a : actor) (og : outg) (ig : ing) : Prop :=
   a_code a = skipn n senderr_code /\
-  (6 < n -> a_role a = RServe -> i_cl ig = true) /\
-  (10 < n -> o_cl og = true) /\
-  (n < 13 -> a_res a = None) /\
-  (n = 13 -> a_res a = Some (a_e a)).
+  (9 < n -> a_role a = RServe -> i_cl ig = true) /\
+  (13 < n -> o_cl og = true) /\
+  (14 < n -> o_cl og = true /\ o_pend og = false) /\
+  (n < 17 -> a_res a = None) /\
+  (n = 17 -> a_res a = Some (a_e a)).
 
 Definition closer_ok (s : state) (i : nat) : Prop :=
   let a := s_a s i in
   match a_role a with
   | RPlain => True
-  | RCloser => exists n, 7 <= n <= 13 /\ exit_at n a (s_o s) (s_i s)
+  | RCloser => exists n, 10 <= n <= 17 /\ exit_at n a (s_o s) (s_i s)
   | RServe => (loopish (a_code a) = true /\ a_res a = None) \/
-              (exists n, n <= 13 /\ exit_at n a (s_o s) (s_i s) /\
+              (exists n, n <= 17 /\ exit_at n a (s_o s) (s_i s) /\
                          a_cause a <> CNone /\ outcome_rel (a_cause a) (a_e a))
   end.
 
@@ -67,10 +73,10 @@ Definition ctx_ok (ig : ing) : Prop :=
 
 Definition CINV (s : state) : Prop := ctx_ok (s_i s) /\ forall i, closer_ok s i.
 
-Lemma close_code_tail : close_code = skipn 7 senderr_code.
+Lemma close_code_tail : close_code = skipn 10 senderr_code.
 Proof. reflexivity. Qed.
 
-Lemma shutdown_code_tail : shutdown_code = skipn 5 senderr_code.
+Lemma shutdown_code_tail : shutdown_code = skipn 8 senderr_code.
 Proof. reflexivity. Qed.
 
 Lemma CINV_init : forall ds ks, CINV (init ds ks).
@@ -79,7 +85,7 @@ Proof.
   intro i. unfold closer_ok. cbn.
   destruct (nth_error ks i) as [k|]; cbn; [|exact I].
   destruct k; cbn; try exact I.
-  - exists 7. split; [lia|]. unfold exit_at. cbn. repeat split; intros; try lia; try discriminate; reflexivity.
+  - exists 10. split; [lia|]. unfold exit_at. cbn. repeat split; intros; try lia; try discriminate; reflexivity.
   - left. split; reflexivity.
 Qed.
 
@@ -99,25 +105,36 @@ Qed.
 
 (* ---- a step inside sendError / shutdown ---- *)
 
+Lemma o_writetag_done og : o_cl og = true -> o_cl (o_writetag og) = true /\ o_pend (o_writetag og) = false.
+Proof. intro H. unfold o_writetag. destruct (o_pend og) eqn:E; cbn; auto. Qed.
+
 Lemma exit_step : forall n me a og ig o k og' ig' a',
-  exit_at n a og ig -> n < 13 -> a_code a = o :: k ->
+  exit_at n a og ig -> n < 17 -> a_code a = o :: k ->
   exec me o k og ig a = Some (og', ig', a') ->
-  exit_at (S n) a' og' ig' /\ a_e a' = a_e a /\ a_cause a' = a_cause a.
+  exists n', n < n' <= 17 /\ exit_at n' a' og' ig' /\ a_e a' = a_e a /\ a_cause a' = a_cause a.
 Proof.
-  intros n me a og ig o k og' ig' a' (Hc & Hi & Ho & Hr & _) Hn Hcode Hex.
+  intros n me a og ig o k og' ig' a' (Hc & Hi & Ho & Hp & Hr & _) Hn Hcode Hex.
   rewrite Hcode in Hc.
-  do 13 (destruct n as [|n];
+  assert (Hmono : forall x, o_cl og = true -> o_cl (o_writetag (o_setlock x None)) = o_cl (o_writetag (o_setlock x None))) by reflexivity.
+  do 17 (destruct n as [|n];
     [ cbn in Hc; injection Hc as -> ->; cbn [exec] in Hex;
       repeat match type of Hex with
              | context [match ?x with _ => _ end] => destruct x eqn:?; try discriminate
              end;
       injection Hex as <- <- <-;
-      (split; [|split; reflexivity]);
-      unfold exit_at; cbn;
-      (split; [reflexivity|]);
-      (split; [intros H6 Hrole; try lia; try reflexivity; try (apply Hi; [lia|exact Hrole])|]);
-      (split; [intros H10; try lia; try apply o_close_cl; try (apply Ho; lia)|]);
-      (split; [intros H13; try lia; try (apply Hr; lia)|intros H13; try lia; try reflexivity])
+      (* the jump of a failed OTest lands on the OUnlock at 7 *)
+      first [ exists 7; (split; [lia|]); (split; [|split; reflexivity]); unfold exit_at; cbn;
+              (split; [reflexivity|]);
+              (split; [intros; lia|]); (split; [intros; lia|]); (split; [intros; lia|]);
+              (split; [intros; apply Hr; lia|intros; lia])
+            | match goal with |- exists n', ?m < n' <= _ /\ _ => exists (S m) end; (split; [lia|]); (split; [|split; reflexivity]); unfold exit_at; cbn;
+              (split; [reflexivity|]);
+              (split; [intros H9 Hrole; try lia; try reflexivity; try (apply Hi; [lia|exact Hrole])|]);
+              (split; [intros H13; try lia; try apply o_mark_cl; try (rewrite ?o_writetag_cl; apply Ho; lia)|]);
+              (split; [intros H14; try lia;
+                       try (apply o_writetag_done; apply Ho; lia);
+                       try (apply Hp; lia)|]);
+              (split; [intros H17; try lia; try (apply Hr; lia)|intros H17; try lia; try reflexivity]) ]
     | ]).
   lia.
 Qed.
@@ -137,7 +154,7 @@ Lemma loop_step : forall me a og ig o k og' ig' a',
   ctx_ok ig -> loopish (a_code a) = true -> a_res a = None -> a_code a = o :: k ->
   exec me o k og ig a = Some (og', ig', a') ->
   (loopish (a_code a') = true /\ a_res a' = None) \/
-  (exists n, n <= 13 /\ exit_at n a' og' ig' /\ a_cause a' <> CNone /\ outcome_rel (a_cause a') (a_e a')).
+  (exists n, n <= 17 /\ exit_at n a' og' ig' /\ a_cause a' <> CNone /\ outcome_rel (a_cause a') (a_e a')).
 Proof.
   intros me a og ig o k og' ig' a' Hctx Hl Hr Hcode Hex. rewrite Hcode in Hl.
   assert (Hop : loop_op o = true).
@@ -156,7 +173,7 @@ Proof.
   - (* ORelIn *) injection Hex as <- <- <-. left. split; [exact (loopish_tail _ _ Hl eq_refl)|exact Hr].
   - (* OServeTop *)
     destruct (i_done ig) eqn:Hd; injection Hex as <- <- <-.
-    + right. exists 5. split; [lia|]. split; [|split; [discriminate|exact (Hctx Hd)]].
+    + right. exists 8. split; [lia|]. split; [|split; [discriminate|exact (Hctx Hd)]].
       unfold exit_at. cbn. repeat split; intros; try lia; try exact Hr.
     + left. split; [reflexivity|exact Hr].
   - (* OServeRead *)
@@ -171,7 +188,7 @@ Proof.
     + destruct fail; reflexivity.
   - (* OExit *)
     injection Hex as <- <- <-. cbn [loop_op] in Hop. apply outcome_okb_rel in Hop. destruct Hop as [Hrel Hne].
-    right. exists (if via_senderror then 0 else 5).
+    right. exists (if via_senderror then 0 else 8).
     split; [destruct via_senderror; lia|]. split; [|split; [exact Hne|exact Hrel]].
     unfold exit_at. destruct via_senderror; cbn; repeat split; intros; try lia; try exact Hr.
 Qed.
@@ -188,18 +205,21 @@ Qed.
 
 Lemma exit_at_mono : forall n a s s', exit_at n a (s_o s) (s_i s) ->
   (o_cl (s_o s) = true -> o_cl (s_o s') = true) -> (i_cl (s_i s) = true -> i_cl (s_i s') = true) ->
+  (o_cl (s_o s) = true /\ o_pend (s_o s) = false -> o_cl (s_o s') = true /\ o_pend (s_o s') = false) ->
   exit_at n a (s_o s') (s_i s').
 Proof.
-  intros n a s s' (H1 & H2 & H3 & H4 & H5) Ho Hi. unfold exit_at. repeat split; auto.
+  intros n a s s' (H1 & H2 & H3 & H4 & H5 & H6) Ho Hi Hp. unfold exit_at. repeat split; auto.
+  - apply Hp. apply H4. assumption.
+  - apply Hp. apply H4. assumption.
 Qed.
 
 Theorem CINV_step : forall s i s', CINV s -> step s i = Some s' -> CINV s'.
 Proof.
   intros s i s' [Hctx Hall] Hstep. split; [exact (ctx_ok_step s i s' Hctx Hstep)|].
-  destruct (step_mono s i s' Hstep) as [Mo Mi].
+  destruct (step_mono s i s' Hstep) as (Mo & Mi & Mp).
   pose proof Hstep as Hinv. apply step_inv in Hinv.
-  destruct Hinv as (o & k & og & ig & a' & Hcode & Hex & ->).
-  cbn [s_o s_i] in Mo, Mi.
+  destruct Hinv as (o & k & og & ig & a' & Hcode & Hgate & Hex & ->).
+  cbn [s_o s_i] in Mo, Mi, Mp.
   intro j. unfold closer_ok. cbn [s_a s_o s_i].
   destruct (Nat.eq_dec j i) as [->|Hn].
   - rewrite upd_same. rewrite (exec_role _ _ _ _ _ _ _ _ _ Hex).
@@ -207,25 +227,25 @@ Proof.
     destruct (a_role (s_a s i)) eqn:Hrole; [exact I| |].
     + (* a Close caller *)
       destruct Hi as (n & Hn & He).
-      assert (n < 13).
-      { destruct (Nat.eq_dec n 13) as [->|]; [|lia]. destruct He as [Hc _]. cbn in Hc. congruence. }
-      destruct (exit_step n i _ _ _ o k og ig a' He H Hcode Hex) as (He' & _ & _).
-      exists (S n). split; [lia|exact He'].
+      assert (n < 17).
+      { destruct (Nat.eq_dec n 17) as [->|]; [|lia]. destruct He as [Hc _]. cbn in Hc. congruence. }
+      destruct (exit_step n i _ _ _ o k og ig a' He H Hcode Hex) as (n' & Hn' & He' & _ & _).
+      exists n'. split; [lia|exact He'].
     + (* Serve *)
       destruct Hi as [[Hl Hr]|(n & Hn & He & Hc & Hrel)].
       * exact (loop_step i _ _ _ o k og ig a' Hctx Hl Hr Hcode Hex).
-      * assert (n < 13).
-        { destruct (Nat.eq_dec n 13) as [->|]; [|lia]. destruct He as [Hc' _]. cbn in Hc'. congruence. }
-        destruct (exit_step n i _ _ _ o k og ig a' He H Hcode Hex) as (He' & Ee & Ec).
-        right. exists (S n). split; [lia|]. split; [exact He'|]. rewrite Ee, Ec. split; assumption.
+      * assert (n < 17).
+        { destruct (Nat.eq_dec n 17) as [->|]; [|lia]. destruct He as [Hc' _]. cbn in Hc'. congruence. }
+        destruct (exit_step n i _ _ _ o k og ig a' He H Hcode Hex) as (n' & Hn' & He' & Ee & Ec).
+        right. exists n'. split; [lia|]. split; [exact He'|]. rewrite Ee, Ec. split; assumption.
   - rewrite upd_other by exact Hn.
     pose proof (Hall j) as Hj. unfold closer_ok in Hj.
     destruct (a_role (s_a s j)); [exact I| |].
     + destruct Hj as (n & Hn' & He). exists n. split; [exact Hn'|].
-      exact (exit_at_mono n _ s (mkS og ig (upd (s_a s) i a')) He Mo Mi).
+      exact (exit_at_mono n _ s (mkS og ig (upd (s_a s) i a')) He Mo Mi Mp).
     + destruct Hj as [Hl|(n & Hn' & He & Hc)]; [left; exact Hl|].
       right. exists n. split; [exact Hn'|]. split; [|exact Hc].
-      exact (exit_at_mono n _ s (mkS og ig (upd (s_a s) i a')) He Mo Mi).
+      exact (exit_at_mono n _ s (mkS og ig (upd (s_a s) i a')) He Mo Mi Mp).
 Qed.
 
 Theorem CINV_run : forall ds ks tr s, run step (init ds ks) tr = Some s -> CINV s.
@@ -237,27 +257,28 @@ Qed.
 (* ---- what holds when a closer has returned ---- *)
 
 Lemma closer_returned : forall s i e, CINV s -> a_role (s_a s i) <> RPlain -> a_res (s_a s i) = Some e ->
-  o_cl (s_o s) = true /\ e = a_e (s_a s i) /\ a_code (s_a s i) = [].
+  (o_cl (s_o s) = true /\ o_pend (s_o s) = false) /\ e = a_e (s_a s i) /\ a_code (s_a s i) = [].
 Proof.
   intros s i e [_ Hall] Hrole Hres. pose proof (Hall i) as Hi. unfold closer_ok in Hi.
-  assert (G : forall n, n <= 13 -> exit_at n (s_a s i) (s_o s) (s_i s) ->
-              o_cl (s_o s) = true /\ e = a_e (s_a s i) /\ a_code (s_a s i) = []).
-  { intros n Hn (H1 & H2 & H3 & H4 & H5).
-    destruct (Nat.eq_dec n 13) as [->|Hne].
-    - split; [apply H3; lia|]. split; [rewrite (H5 eq_refl) in Hres; congruence|exact H1].
-    - rewrite H4 in Hres by lia. discriminate. }
+  assert (G : forall n, n <= 17 -> exit_at n (s_a s i) (s_o s) (s_i s) ->
+              (o_cl (s_o s) = true /\ o_pend (s_o s) = false) /\ e = a_e (s_a s i) /\ a_code (s_a s i) = []).
+  { intros n Hn (H1 & H2 & H3 & H4 & H5 & H6).
+    destruct (Nat.eq_dec n 17) as [->|Hne].
+    - split; [apply H4; lia|]. split; [rewrite (H6 eq_refl) in Hres; congruence|exact H1].
+    - rewrite H5 in Hres by lia. discriminate. }
   destruct (a_role (s_a s i)); [congruence| |].
   - destruct Hi as (n & Hn & He). apply (G n); [lia|exact He].
   - destruct Hi as [[_ Hr]|(n & Hn & He & _)]; [congruence|]. exact (G n Hn He).
 Qed.
 
 Lemma serve_returned : forall s i e, CINV s -> a_role (s_a s i) = RServe -> a_res (s_a s i) = Some e ->
-  o_cl (s_o s) = true /\ i_cl (s_i s) = true /\ a_cause (s_a s i) <> CNone /\ outcome_rel (a_cause (s_a s i)) e.
+  (o_cl (s_o s) = true /\ o_pend (s_o s) = false) /\ i_cl (s_i s) = true /\
+  a_cause (s_a s i) <> CNone /\ outcome_rel (a_cause (s_a s i)) e.
 Proof.
   intros s i e HC Hrole Hres. pose proof HC as [_ Hall]. pose proof (Hall i) as Hi. unfold closer_ok in Hi.
-  rewrite Hrole in Hi. destruct Hi as [[_ Hr]|(n & Hn & (H1 & H2 & H3 & H4 & H5) & Hc & Hrel)]; [congruence|].
-  destruct (Nat.eq_dec n 13) as [->|Hne].
-  - rewrite (H5 eq_refl) in Hres. injection Hres as <-.
-    split; [apply H3; lia|]. split; [apply H2; [lia|exact Hrole]|]. split; assumption.
-  - rewrite H4 in Hres by lia. discriminate.
+  rewrite Hrole in Hi. destruct Hi as [[_ Hr]|(n & Hn & (H1 & H2 & H3 & H4 & H5 & H6) & Hc & Hrel)]; [congruence|].
+  destruct (Nat.eq_dec n 17) as [->|Hne].
+  - rewrite (H6 eq_refl) in Hres. injection Hres as <-.
+    split; [apply H4; lia|]. split; [apply H2; [lia|exact Hrole]|]. split; assumption.
+  - rewrite H5 in Hres by lia. discriminate.
 Qed.
